@@ -277,9 +277,18 @@ def register(reg):
 
         def exc_checks(self, c, exc):
             s = c.self
+            out = []
             if exc.tag.get("from", "").startswith("net.write"):
-                return [("write_failure_marks_connection_errored", ("C14", "C01"), F(c, s, "H2._connection_error"))]
-            return []
+                out.append(("write_failure_marks_connection_errored", ("C14", "C01"), F(c, s, "H2._connection_error")))
+            # from the property (C12 "cannot wedge each other"): data_to_send() drains the frames of ALL streams.  If this flow
+            # leaves after draining without having written them (its write was cancelled), HEADERS / DATA / WINDOW_UPDATE of OTHER
+            # requests are gone and the HPACK contexts diverge: the connection must at least be marked broken
+            # (design_probes/w5_preexisting/C03_preexisting_3.py)
+            drained = len(c.events("h2.data_to_send")) >= 1
+            wrote = any("result" in e.data or e.data.get("done") for e in c.events("net.write"))
+            if drained and exc.cls == "Cancelled":
+                out.append(("frames_of_other_streams_are_not_lost_silently_when_the_write_is_cancelled", ("C12", "C03"), F(c, s, "H2._connection_error")))
+            return out
 
     # ================================================================== _read_incoming_data
     @reg.contract
@@ -419,7 +428,7 @@ def register(reg):
     @reg.contract
     class ReceiveEvents(Contract):
         key = H2 + "._receive_events"
-        props = ("C01", "C02", "C12", "C13", "C14", "C15", "C08", "C20")
+        props = ("C01", "C02", "C12", "C13", "C14", "C15", "C08", "C20", "C16")
         params = {"stream_id": "opt:int", "flow_stream_id": "opt:int"}
         modifies = ("NS.pending", "NS.written", "X.ver", "X.closed", "X.queue_ver", "H2._events", "H2._connection_terminated", "H2._read_exception", "H2._write_exception",
                     "H2._connection_error", "H2._max_streams", "H2._request_count", "Sem.permits", "SemG.mine")
@@ -471,6 +480,14 @@ def register(reg):
                     out.append(("queue_key_is_the_events_stream_id", ("C01", "C12", "C02"), loc[2] == F(c, e, "E2.stream_id")))
             if ev.name == "call:" + H2 + "._receive_remote_settings_change":
                 out.append(("no_blocking_call_while_holding_the_read_lock", ("C12",), rl not in c.st.held))
+            if ev.name == "lock.acquire" and ev.data.get("lid") == rl:
+                # from the property (C16 "no network operation made for a request that configured timeouts is issued without a
+                # limit ... every read uses its read timeout"): whoever holds the read lock is parked in the network read with
+                # ITS OWN timeout; a request queueing for the lock waits for that read without any limit of its own - unlimited
+                # if the holder configured none (design_probes/w4_preexisting/C16_preexisting_2.py).  Nothing in the package
+                # bounds a lock acquisition, so this holds only for requests without a read timeout.
+                req = c.args["request"]
+                out.append(("waiting_to_read_is_limited_by_the_requests_own_read_timeout", ("C16",), timeout_of(ext_of(c, req), "read") == none_val))
             if ev.name == "call:" + H2 + "._write_outgoing_data":
                 # a write can fail or be cancelled: everything h2 parsed must already sit in the stream
                 # queues (the dispatch loop lies between the read and the write), or other streams lose events
